@@ -76,6 +76,78 @@ where int(<fin>.<s>) == int(<ra>.<x>) + int(<rb>.<y>)
 '''
 
 
+# the same message type addressed to different parties in different alternatives; only the fuzzer speaks
+SPEC_THREE = FUZZER + "".join(PARTY.format(name=n) for n in "ABCD") + r'''
+<start> ::= <Fuzzer:A:ping> <Fuzzer:A:fin_a> | <Fuzzer:B:ping> <Fuzzer:B:fin_b> | <Fuzzer:C:ping> <Fuzzer:C:fin_c> | <Fuzzer:D:ping> <Fuzzer:D:fin_d>
+<ping> ::= "ping\n"
+<fin_a> ::= "bye A\n"
+<fin_b> ::= "bye B\n"
+<fin_c> ::= "bye C\n"
+<fin_d> ::= "bye D\n"
+'''
+
+# two consecutive remote messages, the first of an open-ended type (<line>+): the peer may deliver both in one burst
+SPEC_FOUR = FUZZER + PARTY.format(name="Extern") + r'''
+<start> ::= <Fuzzer:Extern:req> <Extern:Fuzzer:resp> <Extern:Fuzzer:done> <Fuzzer:Extern:ack>
+<req> ::= "GET\n"
+<resp> ::= <line>+
+<line> ::= "L" <dg> "\n"
+<dg> ::= "0" | "1" | "2"
+<done> ::= "DONE\n"
+<ack> ::= "ACK\n"
+'''
+
+
+def prefix_ok_three(msgs):
+    if len(msgs) > 2:
+        return False, False, "more than two messages"
+    if msgs:
+        s, r, t = msgs[0]
+        if s != "Fuzzer" or r not in "ABCD" or t != "ping\n":
+            return False, False, f"first message {msgs[0]} is not a ping of the fuzzer to one of A-D"
+    if len(msgs) == 2:
+        s, r, t = msgs[1]
+        if s != "Fuzzer" or r != msgs[0][1] or t != f"bye {r}\n":
+            return False, False, f"after the ping to {msgs[0][1]} the interaction continues with {msgs[1]} (the spec: 'bye {msgs[0][1]}' to {msgs[0][1]})"
+    return True, len(msgs) == 2, ""
+
+
+def prefix_ok_four(msgs):
+    want = [("Fuzzer", "Extern", r"GET\n"), ("Extern", "Fuzzer", r"(L[012]\n)+"), ("Extern", "Fuzzer", r"DONE\n"), ("Fuzzer", "Extern", r"ACK\n")]
+    if len(msgs) > 4:
+        return False, False, "more than four messages"
+    for i, (s, r, t) in enumerate(msgs):
+        ws, wr, rx = want[i]
+        if (s, r) != (ws, wr):
+            return False, False, f"message #{i + 1} {t!r} is attributed to {s}->{r}, the spec says {ws}->{wr}"
+        if not re.fullmatch(rx, t):
+            return False, False, f"message #{i + 1} {t!r} does not have the form of its type"
+    return True, len(msgs) == 4, ""
+
+
+def cases_three(tier, rnd):
+    return [(f"fuzzer_only_run_{k}", True, (lambda message, recipient: [])) for k in range(6 if tier == "quick" else 20)]
+
+
+def cases_four(tier, rnd):
+    def mk(text, cuts=None):
+        def reply(message, recipient):
+            if not message.startswith("GET"):
+                return []
+            return [("Extern", p) for p in (cuts(text) if cuts else [text])]
+        return reply
+    out = [("burst_two_lines_then_done", True, mk("L1\nL2\nDONE\n")), ("burst_one_line_then_done", True, mk("L0\nDONE\n")),
+           ("char_by_char", True, mk("L1\nL2\nDONE\n", lambda t: list(t))),
+           ("message_by_message", True, mk("L1\nL2\nDONE\n", lambda t: ["L1\nL2\n", "DONE\n"])),
+           ("cut_inside_done", True, mk("L2\nDONE\n", lambda t: ["L2\nDO", "NE\n"])),
+           ("done_missing_line", False, mk("DONE\n")), ("garbage_line", False, mk("L7\nDONE\n"))]
+    comps = list(compositions(len("L1\nDONE\n")))
+    rnd.shuffle(comps)
+    for comp in comps[: (4 if tier == "quick" else 40)]:
+        out.append((f"cut_{'_'.join(str(a) for a, _ in comp)}", True, mk("L1\nDONE\n", lambda t, comp=comp: [t[a:b] for a, b in comp])))
+    return out
+
+
 def compositions(n):
     for mask in range(1 << (n - 1)):
         cuts = [0] + [i + 1 for i in range(n - 1) if mask >> i & 1] + [n]
@@ -285,7 +357,8 @@ sys.exit(c20.replay({spec_name!r}, {label!r}, {seed!r}, {tier!r}))
 '''
 
 
-FAMILY = {"request_reply_ack": (SPEC_ONE, prefix_ok_one, cases_one), "two_remote_parties": (SPEC_TWO, prefix_ok_two, cases_two)}
+FAMILY = {"request_reply_ack": (SPEC_ONE, prefix_ok_one, cases_one), "two_remote_parties": (SPEC_TWO, prefix_ok_two, cases_two),
+          "same_type_to_several_parties": (SPEC_THREE, prefix_ok_three, cases_three), "pipelined_remote_messages": (SPEC_FOUR, prefix_ok_four, cases_four)}
 
 
 def run(tier="quick", seed=0, pid="C20", only=None):
@@ -327,13 +400,14 @@ def run(tier="quick", seed=0, pid="C20", only=None):
         os.chdir(cwd)
     return {
         "evaluations": evaluations, "distinct_nontrivial": len(distinct),
-        "rule": ("scripted protocol runs (Fandango.fuzz(mode=IO)) of 2 specs (request/reply/ack with constraints across messages; two remote "
-                 "parties whose fragments arrive interleaved) x peer behaviours (valid, other valid alternative, wrong type, constraint "
+        "rule": ("scripted protocol runs (Fandango.fuzz(mode=IO)) of 4 specs (request/reply/ack with constraints across messages; two remote "
+                 "parties whose fragments arrive interleaved; one message type addressed to different parties in different alternatives; "
+                 "two consecutive remote messages of which the first is open-ended, delivered in one burst) x peer behaviours (valid, other valid alternative, wrong type, constraint "
                  "violating, garbage after a valid message, truncated [thorough]) x fragmentations (whole, character by character, "
                  "compositions) / interleavings (A then B, B then A, alternating, seeded random); judged: recorded interaction is a "
                  "prefix of the protocol with correct attribution, sends == recorded fuzzer messages, recorded remote data == delivered "
                  "data, valid peer => complete run, bad remote message never recorded; distinct = (spec, behaviour, first sent message)"),
-        "bound": "2 specs, 2 (5) runs per case, single-threaded in-process parties; sockets, threads and timing are outside", "samples": samples,
+        "bound": "4 specs, 2 (5) runs per case, single-threaded in-process parties; sockets, threads and timing are outside", "samples": samples,
         "violations": violations, "runs_over_budget_not_judged": over_budget, "wall_s": round(time.time() - t0, 1),
     }
 
